@@ -165,6 +165,38 @@ Section PVSS.
     | bad => inl bad
     end.
 
+  (* DecShareBatch: one trustee key x, positions (X_i, sH_i, gc_i, e_i); a
+     commitment scalar is picked only for the shares that verify.  [None] = the
+     supplied randomness is exhausted (outside the model). *)
+  Definition dsb_acc := (list point * list pvshare * list pvshare)%type.
+
+  Fixpoint dec_share_batch_go (H : point) (x : F) (rows : list (point * (point * (F * pvshare))))
+           (vs : list F) (acc : dsb_acc) : option dsb_acc :=
+    match rows with
+    | [] => Some acc
+    | r :: rest =>
+        match dec_share H (fst r) (fst (snd r)) x (fst (snd (snd r))) (snd (snd (snd r))) (hd zzero vs) with
+        | inr d =>
+            match vs with
+            | [] => None
+            | _ :: vs' =>
+                dec_share_batch_go H x rest vs'
+                  (fst (fst acc) ++ [fst r], snd (fst acc) ++ [snd (snd (snd r))], snd acc ++ [d])
+            end
+        | inl _ => dec_share_batch_go H x rest vs acc
+        end
+    end.
+
+  (* indexing expGlobalChallenges[i] panics when that slice is too short *)
+  Definition dec_share_batch (H : point) (X sH : list point) (x : F) (gcs : list F)
+             (enc : list pvshare) (vs : list F) : option (res dsb_acc) :=
+    if negb (same_len3 X sH enc) then Some (RErr E_LENGTHS)
+    else if Nat.ltb (length gcs) (length enc) then Some RPanic
+    else match dec_share_batch_go H x (combine X (combine sH (combine gcs enc))) vs ([], [], []) with
+         | Some a => Some (ROk a)
+         | None => None
+         end.
+
   (* VerifyDecShare (with the index check of the repaired code) *)
   Definition verify_dec_share (G X : point) (e d : pvshare) : verdict :=
     if negb (sI d =? sI e) then VIndex
@@ -221,6 +253,8 @@ Arguments verify_enc_share {q} H X sH expC e.
 Arguments enc_batch_step {q} H gc acc r.
 Arguments verify_enc_share_batch {q} Hc H X sH polyComs enc.
 Arguments dec_share {q} Hc H X sH x expC e v.
+Arguments dec_share_batch_go {q} Hc H x rows vs acc.
+Arguments dec_share_batch {q} Hc H X sH x gcs enc vs.
 Arguments verify_dec_share {q} Hc G X e d.
 Arguments dec_batch_step {q} Hc G acc r.
 Arguments verify_dec_share_batch {q} Hc G X enc dec.
